@@ -20,13 +20,8 @@ COMPS = {  # component -> trace module
     "arena": "ArenaTrace", "vector": "VectorTrace", "hash": "HashTrace", "tree": "RBTreeTrace", "list": "ListTrace",
     "bitset": "BitSetTrace", "bitvec": "BitVecTrace", "pool": "PoolTrace", "string": "StrTrace",
 }
-# Known-finding keys.  The first three are tolerated inside the contract (exactly the recorded wrong behaviour, only
-# when the key is listed); the last two are recognised on the rejected execution (dedicated scripted scenarios).
-SPEC_KEYS = {
-    "vector_last_index_of_returns_first": "ArenaVector::last_index_of() returns the FIRST matching index",
-    "bitset_resize_grow_from_unaligned_size": "ArenaBitSet::resize() growing from a size that is not a multiple of 64 corrupts old/new bits",
-    "string_assign_empty_is_noop": "String assign of an empty text through _op_string/_op_chars/_op_hex/_op_format leaves the old contents",
-}
+# Known-finding keys: a rejected execution whose failing input has one of these signatures is reported as KNOWN-FINDING
+# when (and only when) the key is listed in KNOWN_FINDINGS.txt; the contracts themselves are always the strict ones.
 KEY_ARENA = "arena_soft_reset_alloc_skips_retained_block"
 KEY_FMT = "string_format_exact_fit_drops_last_char"
 
@@ -75,7 +70,7 @@ def parse_behaviours(out):
 def export_behaviours(ctx, comp, depth, k, cap):
     cfg = ctx.path(f"mc_{comp}.cfg")
     open(cfg, "w").write(f'SPECIFICATION Spec\nCONSTANTS\n  Comp = "{comp}"\n  Depth = {depth}\n  K = {k}\nINVARIANTS Sane Export\n')
-    r = vlib.run_tlc(ctx, os.path.join(SPEC, "AdtMC.tla"), cfg, workers=8, timeout=900, heap="6g", tag=f"mc_{comp}")
+    r = vlib.run_tlc(ctx, os.path.join(SPEC, "AdtMC.tla"), cfg, workers=4, timeout=1200, heap="6g", tag=f"mc_{comp}")
     vlib.tlc_must_ok(ctx, r, f"AdtMC {comp} depth {depth}")
     beh = parse_behaviours(r.out)
     beh.sort(key=json.dumps)
@@ -149,25 +144,29 @@ def run(ctx):
     q = ctx.quick
     bdir = ctx.build("asan", "adt")
     ctx.build("plain", "adt")
-    for k in ctx.known:                       # exported to TLC (see AdtLib!KnownFinding)
-        if re.fullmatch(r"\w+", k):
-            os.environ["C18K_" + k] = "1"
-    for k in list(os.environ):
-        if k.startswith("C18K_") and k[5:] not in ctx.known:
-            del os.environ[k]
 
     # ---- 1. abstract types: model checking + behaviour export -------------------------------------------------
-    params = {"tree": (6, 5, 4000), "list": (4, 4, 3000), "vector": (4, 0, 3000), "bitset": (3, 0, 3000)} if q else \
+    params = {"tree": (6, 5, 4000), "list": (4, 4, 3000), "vector": (4, 0, 1500), "bitset": (3, 0, 1500)} if q else \
              {"tree": (7, 5, 30000), "list": (5, 3, 20000), "vector": (4, 0, 12000), "bitset": (3, 0, 12000)}
     scripts = fixed_scripts()
     mc_states = {}
-    for comp, (depth, k, cap) in params.items():
-        beh, st = export_behaviours(ctx, comp, depth, k, cap)
-        mc_states[comp] = st
-        pre = [["new", 1, 0, 0]] * k if comp == "list" else []
-        for i, b in enumerate(beh):
-            sc = {"c": comp, "arena": [[1024, 0], [1024, 256], [4096, 0]][i % 3], "ops": pre + b}
-            scripts.append(sc)
+
+    def mc(item):
+        comp, (depth, k, cap) = item
+        sub = SubCtx(ctx)
+        beh, st = export_behaviours(sub, comp, depth, k, cap)
+        return comp, k, beh, st, sub
+    with ThreadPoolExecutor(max_workers=4) as ex:
+        for comp, k, beh, st, sub in ex.map(mc, params.items()):
+            ctx.states += sub.states
+            ctx.transitions += sub.transitions
+            ctx.tlc_cmds += sub.tlc_cmds
+            mc_states[comp] = st
+            for i, b in enumerate(beh):
+                sc = {"c": comp, "arena": [[1024, 0], [1024, 256], [4096, 0]][i % 3], "ops": b}
+                if comp == "list":
+                    sc["nodes"] = k
+                scripts.append(sc)
     ctx.extra["mc_states"] = mc_states
     sp = ctx.path("scripts.ndjson")
     vlib.write_ndjson(sp, scripts)
@@ -175,7 +174,7 @@ def run(ctx):
 
     # ---- 2./3. execute on the real code -------------------------------------------------------------------------
     runs = []          # (tag, prefix)
-    nshard, nexec, steps = (6, 40, 260) if q else (14, 150, 400)
+    nshard, nexec, steps = (6, 60, 260) if q else (14, 150, 400)
 
     def rnd(i):
         if i < 0:
@@ -195,26 +194,33 @@ def run(ctx):
     ctx.log("harness runs done")
 
     # ---- 4. trace validation (one TLC per component and shard, in parallel) ------------------------------------
+    # Few, large trace files: all executions of one component (scripts and every random shard) are concatenated
+    # and cut into chunks of at most CHUNK events - the JVM start dominates short validations.
+    CHUNK = 22000 if q else 40000
     tasks = []
-    for tag, pre in runs:
-        for comp, mod in COMPS.items():
+    for comp, mod in COMPS.items():
+        execs = []
+        for tag, pre in runs:
             path = f"{pre}.{comp}.ndjson"
             if not os.path.exists(path) or os.path.getsize(path) == 0:
                 continue
-            recs = vlib.read_ndjson(path)
-            execs = vlib.split_executions(recs)
-            # executions that never touched this component carry no information: drop them (keeps TLC short)
-            execs = [e for e in execs if any(r.get("e") in ("Op", "ABORT", "Destroyed") for r in e)]
-            if not execs:
-                continue
-            nsh = 1
-            if tag == "s":
-                nsh = max(1, min(6, len(execs) // 500))
-            for j in range(nsh):
-                part = execs[j::nsh]
-                p = ctx.path(f"in_{comp}_{tag}_{j}.ndjson")
-                vlib.write_ndjson(p, [r for e in part for r in e])
-                tasks.append((comp, mod, f"{comp}_{tag}_{j}", p, part))
+            for e in vlib.split_executions(vlib.read_ndjson(path)):
+                # executions that never touched this component carry no information: drop them (keeps TLC short)
+                if any(r.get("e") in ("Op", "ABORT", "Destroyed") for r in e):
+                    execs.append(e)
+        chunks, cur, n = [], [], 0
+        for e in execs:
+            if cur and n + len(e) > CHUNK:
+                chunks.append(cur)
+                cur, n = [], 0
+            cur.append(e)
+            n += len(e)
+        if cur:
+            chunks.append(cur)
+        for j, part in enumerate(chunks):
+            p = ctx.path(f"in_{comp}_{j}.ndjson")
+            vlib.write_ndjson(p, [r for e in part for r in e])
+            tasks.append((comp, mod, f"{comp}_{j}", p, part))
     lock = threading.Lock()
     results = []
 
@@ -222,7 +228,7 @@ def run(ctx):
         comp, mod, tag, p, part = task
         sub = SubCtx(ctx)
         rej = vlib.validate_executions(sub, os.path.join(SPEC, mod + ".tla"), os.path.join(SPEC, mod + ".cfg"), p,
-                                       tag=tag, timeout=1500, heap="3g", max_rejects=4)
+                                       tag=tag, timeout=1700, heap="5g", max_rejects=4)
         with lock:
             results.append((task, sub, rej))
     tasks.sort(key=lambda t: -os.path.getsize(t[3]))          # longest first
@@ -245,8 +251,8 @@ def run(ctx):
                     ctx.distinct.add((comp, json.dumps(r["op"])[:80], json.dumps(r["r"])[:40]))
         nops += n
         per_comp[comp] = per_comp.get(comp, 0) + n
-        if part and len(ctx.samples) < 9 and tag.endswith("_r0_0"):
-            ev = [r for r in part[0] if r.get("e") == "Op"][:2]
+        if part and len(ctx.samples) < 9 and tag.endswith("_0"):
+            ev = [r for r in part[-1] if r.get("e") == "Op"][:2]
             ctx.add_sample({"component": comp, "events": [{"op": x["op"][:6], "r": x["r"][:4]} for x in ev]}, limit=9)
         for x in rej:
             key, what = classify(comp, x)
@@ -255,13 +261,6 @@ def run(ctx):
             else:
                 hint = f" [matches finding signature {key}, not listed in KNOWN_FINDINGS.txt]" if key else ""
                 ctx.violation(what + hint, x["path"])
-    # known findings tolerated inside the contracts: every use was printed by TLC
-    used = set()
-    for lg in glob.glob(ctx.path("tlc_*.log")):
-        for m in re.finditer(r'<<"KNOWN", "C18K_(\w+)">>', open(lg).read()):
-            used.add(m.group(1))
-    for k in sorted(used):
-        ctx.known_finding(k, ctx.known.get(k) or SPEC_KEYS.get(k, ""))
     ctx.evaluations = nops
     ctx.extra["operations_per_component"] = per_comp
     ctx.log("operations validated per component:", per_comp)
@@ -269,7 +268,6 @@ def run(ctx):
         "projection (harness/adt.cpp) reads public members only: block chain / dynamic blocks / container headers / node links; addresses are logged as <<hi,lo>> pairs",
         "allocation never fails in this check (failure handling is C15); a reported failure is accepted by the contracts as 'state unchanged / unspecified'",
         "ASan/UBSan build is the environment: overruns abort the execution, the ABORT line is rejected by the trace spec",
-        "random histories do not ask a soft-reset arena for more than a retained block holds and do not hit the exact-fit printf case; both are covered by dedicated scripted scenarios",
         "hash bucket counts, vector/string growth factors and free-list order are deliberately unspecified (only size <= capacity, reachability, exact contents)",
     ]
     vlib.write_evidence(ctx, "model_checking",
@@ -280,9 +278,6 @@ def run(ctx):
 
 
 def replay(ctx, path):
-    for k in ctx.known:
-        if re.fullmatch(r"\w+", k):
-            os.environ["C18K_" + k] = "1"
     path = os.path.abspath(path)
     base = os.path.basename(path)
     comp = next((c for c in COMPS if base.startswith(c + "_") or f".{c}." in base), None)
